@@ -296,6 +296,25 @@ theorem C12_call_args (ctxVal : String) (data : Kw) (k : String) :
         simp [aget, h1, h2, e1, e2]
   · rfl
 
+/-- **Overlapping calls do not see each other**: when several calls of one service overlap in time, the `i`-th call is
+answered exactly as if it were the only one – it runs the registered definition with *its own* data (plus
+`trigger_type='service'` and `context`) and gets *its own* result. -/
+theorem C12_overlapping_calls (cfg : Cfg) (r : Reg) (k : Svc) (ctxVal : String) (datas : List Kw) (rr : Bool) (i : Nat) :
+    (overlapOutcome cfg r k ctxVal datas rr)[i]? = (datas[i]?).map (fun d => callOutcome cfg r k ctxVal d rr) ∧
+    (∀ h, aget k r.handler = some h → (overlapOutcome cfg r k ctxVal datas rr).length = datas.length ∧
+      ∀ d, datas[i]? = some d → ∀ g kw b, (overlapOutcome cfg r k ctxVal datas rr)[i]? = some (.ran g kw b) →
+        g = h.gen ∧ b = rr ∧ ∀ key, aget key kw = sKwargs ctxVal d key) := by
+  refine ⟨by simp [overlapOutcome], fun h hh => ⟨by simp [overlapOutcome], fun d hd g kw b hr => ?_⟩⟩
+  simp only [overlapOutcome, List.getElem?_map, hd, Option.map_some, Option.some.injEq] at hr
+  simp only [callOutcome, hh] at hr
+  split at hr
+  · simp at hr
+  · split at hr
+    · simp at hr
+    · simp only [CallOut.ran.injEq] at hr
+      obtain ⟨e1, e2, e3⟩ := hr
+      exact ⟨e1.symm, e3.symm, fun key => by rw [← e2]; exact C12_call_args ctxVal d key⟩
+
 /-- **Outgoing calls deliver exactly the given keyword parameters**: with distinct keywords and no task context, the
 service data of `service.call` / `domain.service()` / `domain.entity.service()` is every keyword that is not a call
 control of the right type, in the given order (decision logic over the control table of the entry point); an entity
